@@ -240,3 +240,38 @@ Proof.
   intros Hr. pose proof (Z.log2_spec r Hr) as H.
   replace (Z.log2 r + 1) with (Z.succ (Z.log2 r)) by lia. exact H.
 Qed.
+
+(* the repaired exponent rule keeps the largest neighbour difference within 127 quanta *)
+Lemma fixed_rule_covers r : 0 < r -> 128 * r <= 127 * 2 ^ nexp_rule_fixed r.
+Proof.
+  intros Hr. unfold nexp_rule_fixed. cbn zeta.
+  pose proof (Z.log2_nonneg r) as Hl. pose proof (exponent_covers r Hr) as [_ Hu].
+  destruct (127 * 2 ^ (Z.log2 r + 1) <? 128 * r) eqn:E.
+  - replace (Z.log2 r + 1 + 1) with (Z.succ (Z.log2 r + 1)) by lia. rewrite Z.pow_succ_r by lia. lia.
+  - apply Z.ltb_ge in E. exact E.
+Qed.
+
+Lemma spec_fixed_exponent h rows :
+  0 < h -> rect rows = true ->
+  (rmax rows = 0 \/ (0 < rmax rows /\ 256 * h = 2 ^ nexp_rule_fixed (rmax rows))) ->
+  spec_ok h rows = true /\ within h rows (roundtrip h rows) = true.
+Proof.
+  intros Hh Hr Hc.
+  assert (Hm : rmax rows <= 254 * h).
+  { destruct Hc as [->|[Hp He]]; [lia|]. pose proof (fixed_rule_covers (rmax rows) Hp). lia. }
+  split; [apply spec_partial; assumption|]. apply (roundtrip_half h rows Hh Hr Hm).
+Qed.
+
+(* decoding a field packed by ANY tool with ANY exponent (h arbitrary): when no code left 0..255
+   the library's unpack of the stored bytes returns exactly that packer's running values *)
+Lemma foreign_decode h rows :
+  bytes_ok (raw_codes h rows) = true -> roundtrip h rows = enc_recon h rows.
+Proof.
+  intros Hb. unfold roundtrip, pack_bytes.
+  assert (E : map (map stored) (raw_codes h rows) = raw_codes h rows).
+  { unfold bytes_ok in Hb. induction (raw_codes h rows) as [|r rs IH]; cbn [map forallb] in *; [reflexivity|].
+    apply andb_true_iff in Hb as [H1 H2]. rewrite (IH H2). f_equal.
+    apply map_stored_id. apply Forall_forall. rewrite forallb_forall in H1. intros c Hc.
+    specialize (H1 c Hc). lia. }
+  rewrite E. apply unpack_raw_mirror.
+Qed.
